@@ -1,6 +1,7 @@
 (* C14 - Time and Duration conversions match google.protobuf Timestamp/Duration. *)
-From Coq Require Import List ZArith Bool.
-From Pico Require Import Base.Res Base.Mach Wire.Wire Schema.Types Schema.Conv Schema.ConvProofs.
+From Coq Require Import List ZArith Bool Lia.
+From Pico Require Import Base.Res Base.Mach Wire.Wire Schema.Types Schema.Scalar Ref.Ref Schema.Conv Schema.ConvProofs Schema.Interp Schema.EncSpec Schema.EncProgProofs.
+Import ListNotations.
 Open Scope Z_scope.
 
 (* every time.Duration is split into (d quot 10^9, d rem 10^9): same sign, |nanos| < 10^9 *)
@@ -31,6 +32,28 @@ Proof. exact time_unix_norm. Qed.
 Theorem C14_ts_rt : forall sec nsec, int64 sec -> 0 <= nsec < 1000000000 -> time_unix sec (s32 nsec) = (sec, nsec).
 Proof. exact time_roundtrip. Qed.
 
+(* the BYTES (whole PicoEncode call, appended to any buffer): a zero Time writes nothing; any other instant writes the
+   length-delimited reference sub-message {seconds = 1 (int64), nanos = 2 (int32)} with default-valued members omitted;
+   a Duration always writes the sub-message of its (seconds, nanos) split *)
+Theorem C14_zero_time_absent : forall num buf, enc_timestamp num zero_time_sec 0 buf = Ok buf.
+Proof. intros. reflexivity. Qed.
+Theorem C14_time_bytes : forall num sec nsec buf, int64 sec -> 0 <= nsec < 1000000000 -> valid_number num = true ->
+  enc_timestamp num sec nsec buf =
+  Ok (buf ++ (if time_is_zero sec nsec then [] else spec_ld num (sp_sec_nanos sec (s32 nsec)))).
+Proof.
+  intros num sec nsec buf Hs Hn Hv.
+  apply (enc_cast_elem_sp CastTs num (VTime sec nsec) buf); [|exact Hv|reflexivity].
+  cbn [cast_elem_ok]. unfold in_sb. unfold int64, in_s in Hs. change (64 - 1) with 63 in *.
+  repeat (apply andb_true_iff; split); try apply Z.leb_le; try apply Z.ltb_lt; lia.
+Qed.
+Theorem C14_duration_bytes : forall num d buf, int64 d -> valid_number num = true ->
+  enc_duration num d buf = Ok (buf ++ (let '(s, n) := dur_split d in spec_ld num (sp_sec_nanos s n))).
+Proof.
+  intros num d buf Hd Hv.
+  apply (enc_cast_elem_sp CastDur num (VDur d) buf); [|exact Hv|reflexivity].
+  cbn [cast_elem_ok]. unfold in_sb. unfold int64, in_s in Hd. change (64 - 1) with 63 in *. apply andb_true_iff; split; [apply Z.leb_le|apply Z.ltb_lt]; lia.
+Qed.
+
 (* PARTIAL: that the bytes are those of durationpb.New/timestamppb.New follows from C13's writer
    theorems for the two Int64/Int32 fields inside Message; equality with the protobuf-go
    conversions themselves (AsDuration/AsTime, time.Unix) is validated by correspondence, the
@@ -50,4 +73,7 @@ Print Assumptions C14_dur_fits.
 Print Assumptions C14_dur_sat.
 Print Assumptions C14_dur_rt.
 Print Assumptions C14_ts_norm.
+Print Assumptions C14_zero_time_absent.
+Print Assumptions C14_time_bytes.
+Print Assumptions C14_duration_bytes.
 Print Assumptions C14_ts_rt.
